@@ -192,24 +192,24 @@ Check C04_index_as_found_refuted :
            exact_refs (arena_of s) k = [21; 24; 26] /\ covered_runb false s0 ops = false.
 Print Assumptions C04_index_as_found_refuted.
 
-Theorem C04_index_orphan_refuted :
+Theorem C04_index_former_orphan :
   (exists s : gstate,
-            import_state_v true [("d", None, orphan_note)] = Ok s /\ block_refs_to s "b" = Ok [3]) /\
+            import_state_v true [("d", None, orphan_note)] = Ok s /\ block_refs_to s "b" = Ok [5]) /\
          (exists s0 s : gstate,
             import_state_v true [] = Ok s0 /\
             run_updates true s0 [("d", None, orphan_note)] = Ok s /\
-            block_refs_to s "b" = Ok [] /\
-            exact_refs (arena_of s) "b" = [3] /\
-            covered_runb true s0 [("d", None, orphan_note)] = false).
-Proof. exact IndexHistory.index_history_orphan_refuted. Qed.
-Check C04_index_orphan_refuted :
+            block_refs_to s "b" = Ok [5] /\
+            exact_refs (arena_of s) "b" = [5] /\
+            covered_runb true s0 [("d", None, orphan_note)] = true).
+Proof. exact IndexHistory.index_history_former_orphan. Qed.
+Check C04_index_former_orphan :
   (exists s : gstate,
-            import_state_v true [("d", None, orphan_note)] = Ok s /\ block_refs_to s "b" = Ok [3]) /\
+            import_state_v true [("d", None, orphan_note)] = Ok s /\ block_refs_to s "b" = Ok [5]) /\
          (exists s0 s : gstate,
             import_state_v true [] = Ok s0 /\
             run_updates true s0 [("d", None, orphan_note)] = Ok s /\
-            block_refs_to s "b" = Ok [] /\
-            exact_refs (arena_of s) "b" = [3] /\
-            covered_runb true s0 [("d", None, orphan_note)] = false).
-Print Assumptions C04_index_orphan_refuted.
+            block_refs_to s "b" = Ok [5] /\
+            exact_refs (arena_of s) "b" = [5] /\
+            covered_runb true s0 [("d", None, orphan_note)] = true).
+Print Assumptions C04_index_former_orphan.
 
